@@ -49,7 +49,7 @@ static uint64_t program(const Shared &sh, uint64_t seed, int tid, int iters)
         const ST::string &s = sh.strs[r.below(sh.strs.size())];
         const ST::string &t = sh.strs[r.below(sh.strs.size())];
         try {
-        switch (r.below(24)) {
+        switch (r.below(28)) {
         case 0: d.add(uint64_t(s.compare(t) < 0) + 2 * uint64_t(s.compare_i(t) == 0) + 4 * uint64_t(s == t)); break;
         case 1: d.add(uint64_t(s.find(t.left(2))) ^ uint64_t(s.find_last('a')) ^ uint64_t(s.contains("ta"))); break;
         case 2: d.add(ST::hash()(s) ^ ST::hash_i()(t)); break;
@@ -74,6 +74,14 @@ static uint64_t program(const Shared &sh, uint64_t seed, int tid, int iters)
         case 20: { ST::string m = std::move(own); own = m + "."; d.add(m); break; }
         case 21: d.add(ST::string::from_double(i / 3.0)); d.add(ST::string::from_uint(r.below(1u << 30), 16, true)); d.add(ST::format("{#x} {08b} {+}", i, i & 255, -i)); break;
         case 22: { ST::string_stream other(std::move(stream)); other << "moved"; d.add(other.to_string()); stream << "again"; d.add(stream.to_string()); break; }
+        // floating-point renderings of 64 characters and more (heap path of format_type(double)), explicit precisions
+        case 24: d.add(ST::format("{.90f}|{.70e}|{.2f}|{+.12f}|{.0f}", i / 7.0, i * 3.25, 1e75 * (i + 1), i / 3.0, i * 1.5)); break;
+        // move-construct from a thread-local string / buffer, then clear and reuse the moved-from object
+        case 25: { ST::string m(std::move(own)); own.clear(); d.add(own); own = m + s.left(3); bag.emplace_back(std::move(m)); m.clear(); d.add(m); if (bag.size() > 8) bag.clear(); break; }
+        case 26: { ST::char_buffer cb = (r.below(2) ? t : s).to_utf8(); ST::char_buffer mv(std::move(cb)); cb.clear(); d.add(cb); d.add(mv);
+                   ST::utf16_buffer w = s.to_utf16(); ST::utf16_buffer wm(std::move(w)); w.clear(); w.allocate(2, u'x'); d.add(ST::utf16_to_utf8(w)); d.add(ST::utf16_to_utf8(wm)); break; }
+        // moved-from objects assigned to, streams moved and cleared
+        case 27: { ST::string a = s, b; b = std::move(a); a = t; d.add(a); d.add(b); ST::string_stream x; x << s; ST::string_stream y; y = std::move(x); x << 'q'; d.add(x.to_string()); d.add(y.to_string()); break; }
         case 23: { ST::char_buffer cb = own.to_utf8(); ST::char_buffer cc(cb); cc.allocate(3, 'z'); d.add(cb); d.add(cc); ST::utf16_buffer w = ST::utf8_to_utf16(cb); d.add(ST::utf16_to_utf8(w)); break; }
         }
         } catch (const ST::unicode_error &) { d.add(uint64_t(0xE1)); own = "reset"; }
